@@ -58,6 +58,23 @@ Proof.
   apply (filter_roundtrip lenient name c0 _ f Wn Hb (built_wf f Hf) Hv S).
 Qed.
 
+(* The filter among other string arguments (list <tag> <filter>, count <filter> group <tag>, find <filter>
+   sort <tag> window <range>): MPD sees the name, the arguments before, ONE argument for the filter, the
+   arguments after, and reads that one argument back as the expression.  [K] is C06's failing class. *)
+Theorem c11_roundtrip_args : forall lenient name pre post b0 c0 c1 c f,
+  wf_bytes name -> Forall wf_bytes pre -> Forall wf_bytes post ->
+  Forall (fun a => K a = false) pre -> Forall (fun a => K a = false) post ->
+  build name = inr b0 -> add_all_str b0 pre = Some c0 ->
+  built f -> Forall value_ok (leaves f) -> argument_filter c0 f = Sent c1 ->
+  add_all_str c1 post = Some c ->
+  exists e, mpd_tokenize (send_bytes c) = Some (name :: pre ++ [e] ++ post) /\
+            mpd_parse_filter_gen lenient e = Some (shape_of f, []).
+Proof.
+  intros lenient name pre post b0 c0 c1 c f Wn Wpre Wpost Kpre Kpost Hb Hpre Hf Hv Hs Hpost.
+  exists (inner_text f).
+  apply (filter_roundtrip_args lenient name pre post b0 c0 c1 c f Wn Wpre Wpost Kpre Kpost Hb Hpre (built_wf f Hf) Hv Hs Hpost).
+Qed.
+
 (* tags: every named variant, and everything Tag::try_from accepts, is an MPD word *)
 Theorem c11_tags_valid : (forall v, valid_tagb (Named v) = true) /\
   (forall s t, wf_bytes s -> tag_try_from s = TagOk t -> valid_tagb t = true).
@@ -140,11 +157,20 @@ Proof.
   do 2 eexists. split; [vm_compute; reflexivity|]. repeat split; vm_compute; reflexivity.
 Qed.
 
+(* the filter inside list <tag> <filter> and count <filter> group <tag> *)
+Example c11_ex_args :
+  exists c0 c1 c e, add_all_str (b "list") [b "Album"] = Some c0 /\ argument_filter c0 ex_filter = Sent c1 /\
+    add_all_str c1 [b "group"; b "Artist"] = Some c /\
+    mpd_tokenize (send_bytes c) = Some [b "list"; b "Album"; e; b "group"; b "Artist"] /\
+    mpd_parse_filter e = Some (shape_of ex_filter, []).
+Proof. do 4 eexists. repeat split; vm_compute; reflexivity. Qed.
+
 Print Assumptions c11_and_inv.
 Print Assumptions c11_render_never_panics.
 Print Assumptions c11_roundtrip.
 Print Assumptions c11_roundtrip_mpd.
 Print Assumptions c11_roundtrip_clean.
+Print Assumptions c11_roundtrip_args.
 Print Assumptions c11_tags_valid.
 Print Assumptions c11_render_is_outer_escape.
 Print Assumptions c11_unquote_layers.
@@ -155,3 +181,4 @@ Print Assumptions c11_negate.
 Print Assumptions c11_exists_absent.
 Print Assumptions c11_refuted_quote.
 Print Assumptions c11_ex.
+Print Assumptions c11_ex_args.
